@@ -29,6 +29,11 @@ type World struct {
 	Probe *lib.Bundle   // a valid child of the chain's head (what sync would offer next)
 	L1    *core.L1Head  // nil = never set
 	Floor uint64        // blocks below Floor have been pruned (0 = nothing pruned)
+	// Asked: the highest prune target the LIVE process has been asked for through its Pruner
+	// service (0 = none): the shared in-memory retention floor is raised to Asked-1 before the sweep,
+	// so after a sweep that failed half-way the live node may refuse historical states below
+	// Asked-1 although the disk still holds them (a restarted process serves them again).
+	Asked uint64
 	// States[i] = abstract state after block i (oracle for historical reads)
 	States []*lib.AbsState
 }
@@ -702,12 +707,29 @@ func checkRetention(store db.KeyValueReader, bc *blockchain.Blockchain, w *World
 			}
 		}
 	}
-	// historical state: one below the floor, the floor, and the block below the head
-	at := map[uint64]bool{f: true}
-	if f > 0 {
-		at[f-1] = true
+	// "memory agrees with disk" for the retention floor: the state of a block whose history entries
+	// have been pruned (k + 1 < F: history holds pre-block values, so F-1 is still reconstructible)
+	// must never be handed out — whatever the in-memory floor of the live process says
+	for _, k := range []uint64{0, f / 2, f - 2} {
+		if f < 2 || k+1 >= f {
+			continue
+		}
+		if rd, closer, err := bc.StateAtBlockNumber(k); err == nil {
+			_ = rd
+			_ = closer()
+			p.add("pruned-state-served", "StateAtBlockNumber(%d) hands out a reader although the oldest retained block on disk is %d "+
+				"(state history, state updates and lookups of the blocks below it are deleted)", k, f)
+			break
+		}
 	}
-	if w.Height() >= 1 && uint64(w.Height()-1) >= f {
+	// historical state: one below the floor, the floor, and the block below the head (from the
+	// highest target the live process was asked to prune to, when that is above the disk's floor)
+	lo := max(f, w.Asked)
+	at := map[uint64]bool{lo: true}
+	if lo > 0 {
+		at[lo-1] = true
+	}
+	if w.Height() >= 1 && uint64(w.Height()-1) >= lo {
 		at[uint64(w.Height()-1)] = true
 	}
 	for n := range at {
